@@ -28,7 +28,7 @@ let table : (string * (Model.z -> Model.z -> string)) list = [
   "cfg.u64_max", (fun _ _ -> string_of_z Model.cfg_u64_max); "cfg.i32_min", (fun _ _ -> string_of_z Model.cfg_i32_min);
   "cfg.u32_max", (fun _ _ -> string_of_z Model.cfg_u32_max); "cfg.i16_min", (fun _ _ -> string_of_z Model.cfg_i16_min);
   "cfg.u16_max", (fun _ _ -> string_of_z Model.cfg_u16_max); "cfg.dbl_mant_dig", (fun _ _ -> string_of_z Model.cfg_dbl_mant_dig);
-  "cfg.dbl_round_nearest", (fun _ _ -> "1"); "cfg.long_is_int64", (fun _ _ -> "1");
+  "cfg.dbl_round_nearest", (fun _ _ -> "1"); "cfg.ndebug", (fun _ _ -> "1"); "cfg.long_is_int64", (fun _ _ -> "1");
 ]
 let tbl = Hashtbl.create 400
 let () = List.iter (fun (k, f) -> Hashtbl.replace tbl k f) table
